@@ -236,7 +236,8 @@ def run(ctx):
                 r3.violation("pair:%s" % sym, "%s returns %r, not CString::from_vec_unchecked(owned bytes).into_raw()" % (sym, ret), common.fn_line(prog, k))
                 continue
             v = strip_refs(ret.a[1][0]).a[1][0]
-            owned = contains_call(v, lambda n: any(n.endswith(s_) for s_ in ("::clone", "::into", "::into_bytes", "::to_owned", "::to_string", "::to_vec"))) is not None
+            owned = contains_call(v, lambda n: any(n.endswith(s_) for s_ in ("::clone", "::into", "::into_bytes", "::to_owned", "::to_string", "::to_vec", "::from", "::into_owned", "::into_vec"))) is not None \
+                or prog.fns[want[0]].get("output") in ("std::string::String", "std::vec::Vec<u8>")
             src = contains_call(v, lambda n: n == want[0])
             idx_ok = True
             if kind == "string-indexed":
